@@ -211,6 +211,25 @@ impl Property for C08 {
                             fmt_day(*start), months, MOD_NAMES[*modifier as usize], roll, settlement, fmt_ndt(&got), fmt_day(expected), fmt_day(unadj)
                         ),
                     );
+                    return v;
+                }
+                // the same start date carried as a date-time (what datetime.now() passes in): the
+                // result must fall on the same calendar date; its time of day is not asserted
+                let secs = ((*start).wrapping_mul(7919) + *months as i64 * 31).rem_euclid(86_400);
+                if secs != 0 {
+                    v.label_if(secs >= 43_200, "start:afternoon-time-of-day");
+                    let dt = day_to_ndt(*start) + chrono::Duration::seconds(secs);
+                    match catch(|| calobj.add_months(&dt, *months, &modifier_of(*modifier), &roll.build(), *settlement)) {
+                        Ok(g) => {
+                            if ndt_to_day(&g).0 != expected {
+                                v.fail(
+                                    "add_months | a time of day on the start date changes the resulting date",
+                                    format!("add_months({} + {} s, {}, {}, {:?}, settlement={}) = {} but from midnight {}", fmt_day(*start), secs, months, MOD_NAMES[*modifier as usize], roll, settlement, fmt_ndt(&g), fmt_day(expected)),
+                                );
+                            }
+                        }
+                        Err(p) => v.fail(format!("add_months | panic | {}", p.site()), format!("start {} + {} s: {}", fmt_day(*start), secs, p.message)),
+                    }
                 }
             }
             Case::MonthTable { year, month } => {
@@ -306,13 +325,14 @@ impl Property for C08 {
     }
 
     fn rule(&self) -> String {
-        "add_months stage: (start date over all month/day combinations with weight on days 28-31, leap and century years; month offset of either sign drawn as small (+-14), whole years, exact landings on January/December of a neighbouring year, or a uniform target month, always landing in 1970-2200; roll in {unspecified, 1..31, EoM, SoM, IMM}; modifier; settlement flag; calendar as in C04 with holidays around the target). Oracle: own Gregorian arithmetic (month index 12y+m, day capped at month length, third Wednesday) followed by the C04 reference walk. Side tables are enumerated completely: get_imm/get_eom/get_roll/is_leap_year for every (year, month) and is_imm/is_eom for every date of 1970-2200. Non-trivial: the day was capped, or a year carry/borrow happened, or the offset is a multiple of 12 (add_months); every table row; every date that is an IMM or month-end date.".into()
+        "add_months stage: (start date over all month/day combinations with weight on days 28-31, leap and century years; month offset of either sign drawn as small (+-14), whole years, exact landings on January/December of a neighbouring year, or a uniform target month, always landing in 1970-2200; roll in {unspecified, 1..31, EoM, SoM, IMM}; modifier; settlement flag; calendar as in C04 with holidays around the target). Oracle: own Gregorian arithmetic (month index 12y+m, day capped at month length, third Wednesday) followed by the C04 reference walk. Side tables are enumerated completely: get_imm/get_eom/get_roll/is_leap_year for every (year, month) and is_imm/is_eom for every date of 1970-2200. Non-trivial: the day was capped, or a year carry/borrow happened, or the offset is a multiple of 12 (add_months); every table row; every date that is an IMM or month-end date. Every add_months case is repeated with the start date carried as a date-time (a time of day derived from the case, half of them in the afternoon): the resulting calendar date must be the same.".into()
     }
 
     fn floors(&self, tier: Tier) -> Vec<Floor> {
         let n = tier.pick(400_000u64, 30_000_000);
         vec![
             Floor { label: "carry:total<=0", min: n / 20 },
+            Floor { label: "start:afternoon-time-of-day", min: n / 10 },
             Floor { label: "carry:total=12", min: n / 50 },
             Floor { label: "carry:total>=13", min: n / 20 },
             Floor { label: "day-capped", min: n / 50 },
